@@ -38,6 +38,16 @@ def main():
     sid = f"agent-{prop.lower()}-{which.lower()}"
     dst = os.path.join(VERIF, "seeded", sid)
     meta = {"id": sid, "property": prop, "origin": "written by a sub-agent that saw only the property text and its own worktree"}
+    old_meta = {}
+    if os.path.exists(os.path.join(dst, "meta.json")):
+        try:
+            old_meta = json.load(open(os.path.join(dst, "meta.json")))
+        except Exception:
+            old_meta = {}
+    if skip_tests and old_meta.get("tests_with_change"):
+        meta["tests_with_change"] = old_meta["tests_with_change"]
+    if old_meta.get("checks"):
+        meta["earlier_check_results"] = (old_meta.get("earlier_check_results") or []) + [old_meta["checks"]]
     rc, out = sh("git status --porcelain | grep -v '^??' ; git checkout -- .", cwd=wt)
     rc, out = sh(f"git apply --check {src}/patch.diff", cwd=wt)
     if rc != 0:
@@ -59,7 +69,7 @@ def main():
     rc2, out2 = sh("/venv/bin/python " + os.path.join(src, "demo.py"), cwd=wt, timeout=900)
     meta["demo_without_change"] = {"exit": rc2, "last": out2.strip().splitlines()[-1:]}
     print("demo without change:", rc2, out2.strip().splitlines()[-1:])
-    confirmed = (skip_tests or meta["tests_with_change"]["exit"] == 0) and rc1 != 0 and rc2 == 0
+    confirmed = (meta.get("tests_with_change", {}).get("exit", 0 if skip_tests else 1) == 0) and rc1 != 0 and rc2 == 0
     meta["confirmed"] = confirmed
     # --- our checks against it
     results = {}
